@@ -476,8 +476,10 @@ func (c *client) executeReadLoop(cborReader *cbor.Decoder) {
 	defer c.wg.Done()
 	// Loop and get all messages
 	// The message is generic, so we must find the type and decode the full message next.
-	var runtimeMessage DecodedRuntimeMessage
 	for {
+		// A fresh struct for every message: the decoder leaves fields that a message lacks untouched, so a
+		// message without its "data" (or "run_id") entry would otherwise be handled with the previous message's.
+		var runtimeMessage DecodedRuntimeMessage
 		if err := cborReader.Decode(&runtimeMessage); err != nil {
 			c.logger.Errorf(
 				"ATP client for steps '%s' failed to read or decode runtime message: %v",
